@@ -942,7 +942,10 @@ func transformOrigin(tokens []Token, _ string) pr.CssProperty {
 		// Ignore third parameter as 3D transforms are ignored.
 		tokens = tokens[:2]
 	}
-	return parse2dPosition(tokens)
+	if p := parse2dPosition(tokens); !p.IsNone() {
+		return p
+	}
+	return nil
 }
 
 // @validator()
